@@ -337,7 +337,7 @@ def term_str(t):
     if op == "add":
         return "(" + " + ".join(a) + ")"
     if op == "mul":
-        return "*".join(a) if len(a) > 1 else a[0]
+        return "(" + "*".join(a) + ")" if len(a) > 1 else a[0]
     if op == "div":
         return "(%s/%s)" % (a[0], a[1])
     if op == "pow":
